@@ -10,6 +10,7 @@ REGISTRY = {
     "C07": "engines.extendsplit_checks",
     "C12": "engines.function_sim",
     "C13": "engines.stop_checks",
+    "C18": "engines.dataset_sim",
     "C14": "engines.resume_checks",
 }
 
